@@ -87,6 +87,8 @@ class Capsule(CenteredScatterer):
             flat_indicator = (flat_indicator_a &
                               (flat_indicator_b | flat_indicator_c))
             return flat_indicator.reshape(subdivisions[:-1])
+        def capsule(point):
+            # one domain: the caps have the same index as the cylinder
+            return cylinder(point) | s0.contains(point) | s1.contains(point)
         r = (self.h + 2 * self.d)/2
-        return Indicators([cylinder, s0.contains, s1.contains],
-                          [[-r, r], [-r, r], [-r, r]])
+        return Indicators([capsule], [[-r, r], [-r, r], [-r, r]])
